@@ -58,6 +58,13 @@ def cases():
                        ('RISCV', ee.ENUM_SH_TYPE_RISCV), ('i386', ee.ENUM_SH_TYPE_BASE)):
         for v in keys(ed._DESCR_SH_TYPE, tab):
             yield ['sh_type', M[mname], v]
+    # the range rendering both programs implement for unnamed codes of the OS range (LOOS+0x..; the clone prints <unknown> in the processor and user ranges and so
+    # does not claim those): a few codes, including the holes
+    # between the named GNU types at the top of the OS range; compared although they are "fallbacks" (c18.compare keeps the range patterns for *_range probes)
+    for v in (0x60000001, 0x60001234, 0x6ffffff4, 0x6ffffff8, 0x6ffffff9, 0x6ffffffb):
+        yield ['sh_type_range', 62, v]
+    for v in (0x60000001, 0x60001234, 0x6474e54f, 0x6fffffff):
+        yield ['p_type_range', 62, v]
     known_sh = sorted(k for k in ed._DESCR_SH_FLAGS if isinstance(k, int))
     for bit in known_sh + [3, 6, 7, 0x30, 0x33, 0x403]:
         for m in (62, 40):
@@ -140,6 +147,8 @@ def build(desc):
     """-> (image bytes, option string, sections present)"""
     from mcx.ref import exprtable as X, cfi
     table, m, v = desc
+    if table.endswith('_range'):
+        table = table[:-6]
     le = True
     if table == 'e_machine':
         img = base_image(machine=v)
